@@ -13,6 +13,7 @@ import (
 	"hash/fnv"
 	"io"
 	"io/fs"
+	"os"
 	"strconv"
 	"syscall"
 
@@ -74,6 +75,7 @@ type Fault struct {
 	File     int    `json:"file"`
 	Off      int    `json:"off"`
 	WithData bool   `json:"with_data,omitempty"` // EIO: error returned together with the preceding bytes
+	ErrKind  string `json:"err_kind,omitempty"`  // EIO: which error value the reader fails with ("" = EIO path error)
 	How      string `json:"how,omitempty"`       // CORRUPT: replace | delete | dup
 	Byte     int    `json:"byte,omitempty"`      // CORRUPT replace: new byte
 	Text     QBytes `json:"text,omitempty"`      // STRAY: inserted text
@@ -175,6 +177,26 @@ func (l *EventLog) Hash() string { return strconv.FormatUint(l.h, 16) }
 
 var errSimEIO = &fs.PathError{Op: "read", Path: "<sim>", Err: syscall.EIO}
 
+// every one of these is a failed read, not the end of the stream
+var simReadErrors = map[string]error{
+	"":                   errSimEIO,
+	"wrapped-eof":        fmt.Errorf("read tcp 10.0.0.1:443: connection lost: %w", io.EOF),
+	"unexpected-eof":     io.ErrUnexpectedEOF,
+	"wrapped-unexpected": fmt.Errorf("short body: %w", io.ErrUnexpectedEOF),
+	"text-eof":           errors.New("EOF"),
+	"closed-pipe":        io.ErrClosedPipe,
+	"no-progress":        io.ErrNoProgress,
+	"path-eof":           &fs.PathError{Op: "read", Path: "<sim>", Err: io.EOF},
+	"timeout":            os.ErrDeadlineExceeded,
+}
+
+func (f *Fault) readError() error {
+	if e, ok := simReadErrors[f.ErrKind]; ok {
+		return e
+	}
+	return errSimEIO
+}
+
 // ---- the simulation of one run ----
 
 type streamRun struct {
@@ -218,7 +240,7 @@ func (r *simReader) Read(p []byte) (int, error) {
 	remaining := len(r.data) - r.pos
 	if remaining == 0 {
 		if r.eio {
-			r.sticky = errSimEIO
+			r.sticky = run.c.Fault.readError()
 			run.faults["EIO"]++
 			run.noteFaultPos(r.idx, r.pos)
 			run.log.add('F', 'X', "READ f=%d off=%d asked=%d given=0 err=EIO", r.idx, r.pos, len(p))
@@ -254,7 +276,7 @@ func (r *simReader) Read(p []byte) (int, error) {
 	var err error
 	if r.pos == len(r.data) {
 		if r.eio && run.c.Fault.WithData {
-			err = errSimEIO
+			err = run.c.Fault.readError()
 			r.sticky = err
 			run.faults["EIO"]++
 			run.noteFaultPos(r.idx, r.pos)
